@@ -8,6 +8,7 @@
 //!   tags <json>                  Tags encode / decode on concrete names or a blob
 //!   binary-encode <json file>    Serializer (compression off, custom database) on a DOM built from bit patterns, then read back
 //!   binary-compress-scan         Folders named a^k written with LZ4 / Zstandard and read back (replay of framing findings)
+//!   binary-det <json file>       determinism replay: write, write with reversed property order, load + save again
 //!   binary-write-sink <room>     rbx_binary::to_writer of a one-Folder DOM into a sink with room for <room> bytes
 use std::io::Read;
 
@@ -81,6 +82,15 @@ fn build(kind: &str, v: &Value) -> Variant {
             style: FontStyle::from_u8(a[1].as_u64().unwrap() as u8).unwrap(),
             cached_face_id: if a[3].is_null() { None } else { Some(string(&a[3])) },
         }),
+        "UniqueId" => Variant::UniqueId(UniqueId::new(a[0].as_u64().unwrap() as u32, a[1].as_u64().unwrap() as u32, a[2].as_i64().unwrap())),
+        "SecurityCapabilities" => Variant::SecurityCapabilities(SecurityCapabilities::from_bits(v.as_u64().unwrap())),
+        "OptionalCFrame" => {
+            if v.is_null() {
+                Variant::OptionalCFrame(None)
+            } else {
+                Variant::OptionalCFrame(Some(CFrame::new(v3(&a[0..3]), Matrix3::new(v3(&a[3..6]), v3(&a[6..9]), v3(&a[9..12])))))
+            }
+        }
         "Int64" => Variant::Int64(v.as_i64().unwrap()),
         "Ray" => Variant::Ray(Ray::new(v3(&a[0..3]), v3(&a[3..6]))),
         "Faces" => Variant::Faces(Faces::from_bits(v.as_u64().unwrap() as u8).expect("faces bits")),
@@ -119,6 +129,8 @@ fn build_fields(kind: &str, d: &Value) -> Variant {
         "Color3" => Variant::Color3(Color3::new(fl("r"), fl("g"), fl("b"))),
         "Color3uint8" => Variant::Color3uint8(Color3uint8::new(u("r") as u8, u("g") as u8, u("b") as u8)),
         "SharedString" => Variant::SharedString(SharedString::new(bytes(&d["bytes"]))),
+        "Float64" => Variant::Float64(f64::from_bits(u("v"))),
+        "SecurityCapabilities" => Variant::SecurityCapabilities(SecurityCapabilities::from_bits(u("v"))),
         other => panic!("replayer: unsupported field-dict kind {}", other),
     }
 }
@@ -167,6 +179,7 @@ fn view(v: &Variant) -> Value {
         Variant::OptionalCFrame(None) => json!({"OptionalCFrame": null}),
         Variant::OptionalCFrame(Some(c)) => view(&Variant::CFrame(*c)),
         Variant::UniqueId(u) => json!({"UniqueId": [u.index(), u.time(), u.random()]}),
+        Variant::SecurityCapabilities(c) => json!({"SecurityCapabilities": c.bits()}),
         other => json!({ "Other": format!("{:?}", other) }),
     }
 }
@@ -415,6 +428,48 @@ pub fn main(args: &[String]) {
                     Err(e) => println!("{}", json!({"file": hex(&out), "read_err": e.to_string()})),
                 },
             }
+        }
+        "binary-det" => {
+            // {"db":..., "nodes":[{"class","parent" (index or null = root's child),"props":[[name,kind,fields]..]}]}: the DOM is written,
+            // written again with every property list reversed, and loaded + saved again; all three outputs must be equal
+            let spec: Value = serde_json::from_str(&std::fs::read_to_string(&args[1]).unwrap()).unwrap();
+            let db = custom_database(&spec["db"]);
+            let build_dom = |rev: bool| {
+                let mut dom = rbx_dom_weak::WeakDom::new(rbx_dom_weak::InstanceBuilder::new("DataModel"));
+                let root = dom.root_ref();
+                let mut refs: Vec<Ref> = Vec::new();
+                for (i, n) in spec["nodes"].as_array().unwrap().iter().enumerate() {
+                    let mut b = rbx_dom_weak::InstanceBuilder::new(n["class"].as_str().unwrap()).with_name(format!("N{}", i + 1));
+                    let mut ps: Vec<&Value> = n["props"].as_array().unwrap().iter().collect();
+                    if rev {
+                        ps.reverse();
+                    }
+                    for p in ps {
+                        b = b.with_property(p[0].as_str().unwrap(), build_fields(p[1].as_str().unwrap(), &p[2]));
+                    }
+                    let parent = match n["parent"].as_u64() {
+                        Some(k) => refs[k as usize],
+                        None => root,
+                    };
+                    refs.push(dom.insert(parent, b));
+                }
+                dom
+            };
+            let write = |dom: &rbx_dom_weak::WeakDom| {
+                let mut out = Vec::new();
+                rbx_binary::Serializer::new()
+                    .reflection_database(&db)
+                    .compression_type(rbx_binary::CompressionType::None)
+                    .serialize(&mut out, dom, dom.root().children())
+                    .map(|_| out)
+                    .map_err(|e| e.to_string())
+            };
+            let a = write(&build_dom(false));
+            let b = write(&build_dom(true));
+            let c = a.clone().and_then(|bytes| {
+                rbx_binary::Deserializer::new().reflection_database(&db).deserialize(&bytes[..]).map_err(|e| e.to_string()).and_then(|d| write(&d))
+            });
+            println!("{}", json!({"first": a.as_ref().map(|x| hex(x)).unwrap_or_default(), "first_err": a.as_ref().err(), "reversed_equal": a == b, "resave_equal": a == c, "resave_err": c.as_ref().err()}));
         }
         "binary-bigstring" => {
             // a StringValue-like instance with a string of <n> equal bytes, written with each compression mode, read back
